@@ -199,3 +199,17 @@ Section RunA.
         let '(sf, evs) := run_af n m dt poisson ds' s1 in (sf, (att, coll) :: evs)
     end.
 End RunA.
+
+(* ---- whole linear-rk4 runs ---- *)
+Section RunR.
+  Context {T : Type} (O : Ops T).
+  Record kdata := mkKD { kzeta : T; ke0 : elec (T:=T); ke1 : elec (T:=T); keigs : list T; kvecs : list (list T) }.
+  Fixpoint run_rk4 (n : nat) (m : list T) (dt maxdt : T) (start : nat) (poisson : bool) (ds : list kdata) (s : tstate (T:=T))
+    : tstate (T:=T) * list (option (nat * bool)) :=
+    match ds with
+    | [] => (s, [])
+    | d :: ds' =>
+        let '(s1, _, _, att) := step_rk4 O n m dt maxdt start poisson (kzeta d) (ke0 d) (ke1 d) (keigs d) (kvecs d) s in
+        let '(sf, atts) := run_rk4 n m dt maxdt start poisson ds' s1 in (sf, att :: atts)
+    end.
+End RunR.
